@@ -225,6 +225,11 @@ def obligations(tier, seed):
     out.append(ob('C07/ipv6/reach/list3+linklocal', 'ob_ipv6_unicast',
                   {'dir': 'reach', 'prefixes': [('2001:db8:2:2::', 64), ('2001:db8::', 32), ('2001:db8:2::1', 128)],
                    'nexthop': '2001:db8::2', 'linklocal': 'fe80::c002:bff:fe7e:0'}))
+    for nh in ('::', '::1', '::255.255.255.255', '::1:0:0'):
+        out.append(ob('C07/ipv6/reach/nexthop=%s' % nh, 'ob_ipv6_unicast',
+                      {'dir': 'reach', 'prefixes': [('2001:db8::', 32)], 'nexthop': nh}))
+        out.append(ob('C07/ipv6/reach/nexthop=%s+linklocal' % nh, 'ob_ipv6_unicast',
+                      {'dir': 'reach', 'prefixes': [('2001:db8::', 32)], 'nexthop': nh, 'linklocal': 'fe80::1'}))
     out.append(ob('C07/ipv6/unreach/list2', 'ob_ipv6_unicast',
                   {'dir': 'unreach', 'prefixes': [('2001:db8:2:2::', 64), ('2001:db8::', 48)], 'nexthop': '2001:db8::2'}))
     # labeled unicast
